@@ -7,6 +7,8 @@ void runResidue(const Opts&, long, CaseLog&);
 void runC12Api(const Opts&, long, CaseLog&);
 void runFaults(const Opts&, long, CaseLog&);
 void runDamage(const Opts&, long, CaseLog&);
+void runLimits(const Opts&, long, CaseLog&);
+void runThreadsRound(const Opts&, long, CaseLog&);
 void runPlainSave(const Opts&, long, CaseLog&);
 int modeMain(const Opts& o) {
     if (o.mode == "hist") return runCases(o, runHistCase);
@@ -16,6 +18,8 @@ int modeMain(const Opts& o) {
     if (o.mode == "c12api") return runCases(o, runC12Api);
     if (o.mode == "faults") return runCases(o, runFaults);
     if (o.mode == "damage") return runCases(o, runDamage);
+    if (o.mode == "limits") return runCases(o, runLimits);
+    if (o.mode == "threads") return runCases(o, runThreadsRound);
     if (o.mode == "plainsave") return runCases(o, runPlainSave);
     fprintf(stderr, "unknown mode %s\n", o.mode.c_str());
     return 2;
